@@ -425,6 +425,7 @@ func (fc *FnCtx) appendSeq(st *State, dst VSlice, src VStr) VSlice {
 	r.Cap = fc.define(ite(inPlace, dst.Cap, capF), "ac")
 	st.nextR = fc.define(ite(inPlace, st.nextR, add(st.nextR, mkInt(1))), "nextR")
 	// new content of the target region
+	fc.frameWrite(st, inPlace, dst.Rgn, add(dst.Off, dst.Len), add(add(dst.Off, dst.Len), n), fc.curPos, "append")
 	arr := fc.fresh("A", SArr)
 	fc.nfr++
 	k := T{fmt.Sprintf("k!%d", fc.nfr), SInt}
@@ -488,6 +489,7 @@ func (fc *FnCtx) evalCopy(st *State, c *ast.CallExpr) Val {
 
 // copyInto: memmove of n bytes of src (read from the current heap) to dst[0:n].
 func (fc *FnCtx) copyInto(st *State, dst VSlice, src VStr, n T) {
+	fc.frameWrite(st, tTrue, dst.Rgn, dst.Off, add(dst.Off, n), fc.curPos, "copy")
 	old := sel(st.heap, dst.Rgn)
 	arr := fc.fresh("A", SArr)
 	fc.nfr++
@@ -621,6 +623,9 @@ func (fc *FnCtx) applyModifies(st *State, ct *FuncContract, bind map[string]Val,
 		return
 	}
 	if ct.ModAll {
+		if fc.frame.set && !fc.frame.all && fc.safetyActive() {
+			fc.assert(st, "frame", "frame[call-modifies-everything]", tFalse, fc.curPos, "a callee that may write anything is called from a function with a modifies clause")
+		}
 		fc.havocHeap(st, nil)
 		fc.havocObjects(st, true)
 		return
@@ -680,6 +685,12 @@ func (fc *FnCtx) applyModifies(st *State, ct *FuncContract, bind map[string]Val,
 		}
 	}
 	if len(rgns) > 0 || len(wins) > 0 {
+		for _, w := range wins {
+			fc.frameWrite(st, tTrue, w.rgn, w.lo, w.hi, fc.curPos, "call-modifies")
+		}
+		for _, r := range rgns {
+			fc.frameWriteRegion(st, r, fc.curPos, "call-modifies")
+		}
 		fc.havocHeapWindows(st, rgns, wins)
 	}
 	// the callee may allocate
